@@ -92,6 +92,13 @@ def eval_law_concrete(system, with_chemostats=True):
     return out
 
 
+REAL_RUN_LIMIT_S = 60
+
+
+class RealBuildHang(Exception):
+    """a run-to-completion of the real build exceeded its time limit: observable misbehaviour, not a harness problem"""
+
+
 def real_run(script, option, n_iter=None, calls=None):
     """Drive the real build of the working tree. Returns (data list, t list)."""
     e = real_engine(option)
@@ -100,8 +107,12 @@ def real_run(script, option, n_iter=None, calls=None):
         if calls is not None:
             calls(e)
         elif n_iter is None:
+            import time as _t
+            t0, k = _t.time(), 0
             while e.iterate():
-                pass
+                k += 1
+                if k % 4096 == 0 and _t.time() - t0 > REAL_RUN_LIMIT_S:
+                    raise RealBuildHang("the real build did not complete the run within %d s (%d iterations)" % (REAL_RUN_LIMIT_S, k))
         else:
             for _ in range(n_iter):
                 e.iterate()
